@@ -19,7 +19,6 @@ of the sync Interests handed to the face during the step, the number of on_missi
 during the step; plus, for keeping spec and instance in step, the public `state` and the time
 left until the public `next_sync_timing`.
 """
-import gc
 import secrets
 import time
 
@@ -374,9 +373,8 @@ class Scenario:
         post = self.post()
         if p['k'] != 'sv':
             # an undecodable sync Interest must be ignored quietly: an exception that escapes sync_handler
-            # (it surfaces in the loop's exception handler when the handler task is released) is reported
-            if len(self.sess.loop.errors) == n0:
-                gc.collect()
+            # (it surfaces in the loop's exception handler as soon as the finished handler task is released, which
+            # CPython does by reference count at the end of the step) is reported
             new = [c.get('exception') for c in self.sess.loop.errors[n0:]]
             post['raised'] = ','.join(sorted({type(e).__name__ for e in new if e is not None}))
         return post
